@@ -2506,6 +2506,8 @@ int32 tls13WriteClientHello(ssl_t *ssl, sslBuf_t *out,
             if (ssl->tls13ClientCipherSuites == NULL)
             {
                 psTraceErrr("Out of mem in tls13WriteClientHello\n");
+                psDynBufUninit(&ciphersBuf);
+                psDynBufUninit(&chBuf);
                 goto out_internal_error;
             }
             for (i = 0; i < cipherSpecsLen; i++)
